@@ -771,8 +771,8 @@ def replay_live(col: Col, states, ctx: Ctx):
                 idxs = sched[bar]
                 node = states[idxs[0] - 1] if idxs else states[-1]
                 win = tuple(path[max(0, bar - TWAP_BARS + 1):bar + 1])
-                col.twap.setdefault(("eth", win), frac(sm.get_twap_price(W.weth)))
-                col.twap.setdefault(("sq", win), frac(sm.get_twap_price(W.osqth)))
+                col.twap.setdefault(("eth", win), (frac(sm.get_twap_price(W.weth)), tuple(path[:bar + 1])))
+                col.twap.setdefault(("sq", win), (frac(sm.get_twap_price(W.osqth)), tuple(path[:bar + 1])))
                 bind_view(node, ctx)
                 if not check_views(col, W, node, True, mk(idxs[0] - 1 if idxs else len(states) - 1)):
                     run["ok"] = False
@@ -900,7 +900,7 @@ def replay_graph(chk: Check, tab, nk, nodes, edges, init, paths, scratch):
     """Replay root->leaf paths in worker processes.  A path is cut where the code leaves the spec without violating the
     property (band, rejection where the spec accepts, C04 matter); nodes behind a cut are then reached by another route of
     the graph (same state, other history) if there is one, so that an early divergence does not hide later edges."""
-    verified, failed = set(), set()
+    verified, failed = set(init), set()
     for rnd_no in range(4):
         if not paths:
             break
@@ -967,7 +967,7 @@ def pool_map(fn, items):
 
 def twap_obs_module(obs):
     rows = []
-    for (tok, win), g in obs:
+    for (tok, win), (g, _) in obs:
         f = "eth" if tok == "eth" else "sq"
         ps = ", ".join(q_tla(ROWS[s - 1][f]) for s in win)
         rows.append(f"[g |-> {q_tla(g)}, ps |-> <<{ps}>>]")
@@ -1073,10 +1073,10 @@ def run(chk: Check) -> int:
         chk.count("twap_relational", int(m.group(2)))
         chk.extra["twap_observations_validated_by_tlc"] = int(m.group(2))
         for i in bad[:4]:
-            (tok, win), g = obs[i - 1]
+            (tok, win), (g, prefix) = obs[i - 1]
             chk.violation(f"SqueethMarket.get_twap_price|twap_relational|window_{len(win)}",
                           f"get_twap_price({tok}) = {float(g)!r} for window prices {[ROWS[s - 1][tok] for s in win]} is not their "
-                          f"geometric mean within 1e-9 (TwapOk fails)", {"kind": "twap", "token": tok, "window": list(win), "value": str(g)})
+                          f"geometric mean within 1e-9 (TwapOk fails)", {"kind": "twap", "token": tok, "window": list(win), "path": list(prefix), "value": str(g)})
         for i in bad[4:]:
             chk.violation(f"SqueethMarket.get_twap_price|twap_relational|window_{len(obs[i - 1][0][1])}", "", {})
     chk.extra["distinct_nontrivial"] = sum(v for k, v in chk.clauses.items() if k.startswith("cover/liq") or k == "cover/reduce_debt")
@@ -1095,13 +1095,13 @@ def replay(chk: Check, path: str) -> int:
         td.mkdir()
         for f in ("Trace_SqueethTwap.tla", "Trace_SqueethTwap.cfg"):
             shutil.copy(VERIF / "spec" / "trace" / f, td / f)
-        act, um, sm = build_actuator(win, 0)
+        act, um, sm = build_actuator(r["path"], 0)
         from demeter import MarketStatus
         from .. import sim
-        sm.set_market_status(MarketStatus(sim.minute(len(win) - 1), None), None)
+        sm.set_market_status(MarketStatus(sim.minute(len(r["path"]) - 1), None), None)
         weth, osqth, _, _ = _tokens()
         g = frac(sm.get_twap_price(weth if r["token"] == "eth" else osqth))
-        (td / "TwapObs.tla").write_text(twap_obs_module([((r["token"], tuple(win)), g)]))
+        (td / "TwapObs.tla").write_text(twap_obs_module([((r["token"], tuple(win)), (g, ()))]))
         res = tlc.run(td / "Trace_SqueethTwap.tla", td / "Trace_SqueethTwap.cfg", chk.tmp, workers=1, timeout=600)
         if not re.search(r'<<\s*"twap_bad",\s*\{\s*\},\s*1\s*>>', res.output):
             chk.violation(f"SqueethMarket.get_twap_price|twap_relational|window_{len(win)}", f"TWAP {float(g)!r} for window {win}", r)
